@@ -156,6 +156,12 @@ def fixed_requests(tmp):
     reqs.append(({'kind': 'assist', 'src': MULTI_ASSIGN + 'b.', 'pos': [48, 2], 'filename': fn, 'roots': [tmp]}, True, 3))
     reqs.append(({'kind': 'location', 'src': MULTI_ASSIGN, 'pos': [47, 12], 'filename': fn, 'roots': [tmp]}, True, 7))
     reqs.append(({'kind': 'lint', 'src': MULTI_ASSIGN, 'filename': fn, 'roots': [tmp]}, False, 0))
+    cyc = 'from cyc_a import *\nfrom cyc_b import *\nfrom cyc_e import *\nimport cyc_a, cyc_b\n'
+    cfn = os.path.join(suppview.FIXTURES, 'gen_prog.py')
+    for tail, pos in (('cyc_a.', (5, 6)), ('cyc_b.', (5, 6)), ('c', (5, 1)), ('cyc_a.cb', (5, 8))):
+        reqs.append(({'kind': 'assist', 'src': cyc + tail, 'pos': list(pos), 'filename': cfn, 'roots': [suppview.FIXTURES]}, True, 3))
+    reqs.append(({'kind': 'location', 'src': cyc + 'cyc_a.cb', 'pos': [5, 8], 'filename': cfn, 'roots': [suppview.FIXTURES]}, True, 2))
+    reqs.append(({'kind': 'lint', 'src': cyc + 'print(ca, cb, e_own)\n', 'filename': cfn, 'roots': [suppview.FIXTURES]}, True, 3))
     for name, src in c04.MODS.items():
         with open(os.path.join(tmp, name + '.py'), 'w') as f:
             f.write(src)
